@@ -552,7 +552,9 @@ func runCeremony(r *vfw.Run, forC16 bool) {
 			case types.SubmitLongAnswersTx:
 				facts.longTx[snd] = true
 			case types.EvidenceTx:
-				if _, dup := facts.evidence[snd]; !dup && facts.evidence != nil {
+				// (the epoch is evaluated while the finishing block is being built / validated: ceremony transactions
+				// carried by that block itself come too late for everybody - an earlier version of this oracle counted them)
+				if _, dup := facts.evidence[snd]; !dup && facts.evidence != nil && !finishing {
 					facts.evidence[snd] = tx.Payload
 				}
 			}
